@@ -12,7 +12,7 @@
           independent of the host schedule (refuted, known finding), but it is
           when the engine has drained before the hand-off. *)
 From Coq Require Import List NArith Bool String Permutation Sorted.
-From VSys Require Import Engine EngineProofs EngineConserve Handoff MapRange MapRangeProofs SiteTypes.
+From VSys Require Import Engine EngineProofs EngineConserve EngineOrder Handoff MapRange MapRangeProofs SiteTypes.
 From VGen Require Import MapRanges.
 Import ListNotations.
 
@@ -75,6 +75,37 @@ Theorem engine_conserves_events : forall (A : Type) (ops : list (op A)),
   exists rest, Permutation (handled (exec ops) ++ q (exec ops) ++ sq (exec ops) ++ rest) (pushes ops).
 Proof. exact engine_conserves_events. Qed.
 Print Assumptions engine_conserves_events.
+
+(** Both event queues are binary min-heaps (parent of slot k is slot (k-1)/2)
+    after every Push and Pop, for all histories. *)
+Theorem event_queue_is_min_heap : forall (A : Type),
+  (forall (e : event A) l, heap_ok l -> heap_ok (hpush e l)) /\
+  (forall (l : list (event A)) e r, heap_ok l -> hpop l = Some (e, r) -> heap_ok r) /\
+  (forall ops : list (op A), heap_ok (q (exec ops)) /\ heap_ok (sq (exec ops))).
+Proof.
+  intros A. split; [apply hpush_heap|]. split; [apply hpop_heap|].
+  intros ops. destruct (exec_inv ops). split; assumption.
+Qed.
+Print Assumptions event_queue_is_min_heap.
+
+(** For all histories: events are handled in non-decreasing time order, nothing
+    queued lies in the past, and what nextEvent picks is a minimum of both
+    queues; it picks from the secondary queue (the primary queue is returned
+    unchanged) only when every queued primary event is strictly later -- primary
+    events go first at equal time. *)
+Theorem engine_handles_in_time_order : forall (A : Type) (ops : list (op A)),
+  let s := exec ops in
+  StronglySorted N.le (map (@ev_time A) (handled s)) /\
+  (forall x, In x (handled s) -> (ev_time x <= now s)%N) /\
+  (forall x, In x (q s ++ sq s) -> (now s <= ev_time x)%N) /\
+  (forall e q' sq', next_event s = Some (e, q', sq') ->
+     (forall x, In x (q s ++ sq s) -> (ev_time e <= ev_time x)%N) /\
+     (q' = q s -> forall p, In p (q s) -> (ev_time e < ev_time p)%N)).
+Proof.
+  intros A ops s. destruct (exec_inv ops) as [Iq Is If Ih Ip]. fold s in Iq, Is, If, Ih, Ip.
+  repeat split; auto; destruct (next_event_min s Iq Is H) as (_ & _ & H1 & H2); auto.
+Qed.
+Print Assumptions engine_handles_in_time_order.
 
 (** * (ii) sources of nondeterminism in the Go sources *)
 
